@@ -392,6 +392,29 @@ func (a *apiServer) Publish(ctx context.Context, req *client.PublishRequest) (
 		return nil, err
 	}
 
+	return a.publishAuthorized(ctx, req, subject)
+}
+
+// publishInternal publishes a message on behalf of the server itself, e.g. an
+// event on the activity stream. It is Publish without the client authorization
+// check: there is no client whose permissions could be checked, and the
+// context of such a call carries no client ID.
+func (a *apiServer) publishInternal(ctx context.Context, req *client.PublishRequest) (
+	*client.PublishResponse, error) {
+
+	subject, e := a.getPublishSubject(req)
+	if e != nil {
+		a.logger.Errorf("api: Failed to publish message: %v", e.Message)
+		return nil, convertPublishAsyncError(e)
+	}
+	return a.publishAuthorized(ctx, req, subject)
+}
+
+// publishAuthorized is the part of Publish that follows the authorization
+// check.
+func (a *apiServer) publishAuthorized(ctx context.Context, req *client.PublishRequest, subject string) (
+	*client.PublishResponse, error) {
+
 	if e := a.ensurePublishPreconditions(req); e != nil {
 		return nil, convertPublishAsyncError(e)
 	}
